@@ -53,10 +53,24 @@ def dump_mir(features=DEFAULT_FEATURES, package='adf_bdd', target='--lib'):
         if features: cmd += ['--features', ','.join(features)]
         cmd += ['--', '-Zunpretty=mir', '-C', 'debug-assertions=off', '-C', 'overflow-checks=on', '-Awarnings']
         p = subprocess.run(cmd, cwd=REPO, env=dict(ENV, CARGO_TARGET_DIR=tdir), capture_output=True, text=True)
-    if p.returncode != 0 or 'fn ' not in p.stdout:
-        sys.stderr.write(p.stderr[-3000:])
-        raise RuntimeError('MIR dump failed for features %s' % (features,))
-    return p.stdout, time.time() - t
+        if p.returncode != 0 or 'fn ' not in p.stdout:
+            sys.stderr.write(p.stderr[-3000:])
+            raise RuntimeError('MIR dump failed for features %s' % (features,))
+        # rustc's MIR pretty-printer names closure captures by variable and silently drops operands when one
+        # variable is captured by several disjoint fields; the stable-MIR printer lists every operand.
+        for d in glob.glob(os.path.join(tdir, 'debug', '.fingerprint', package.replace('-', '_') + '-*')) + \
+                 glob.glob(os.path.join(tdir, 'debug', '.fingerprint', package + '-*')):
+            shutil.rmtree(d, ignore_errors=True)
+        cmd2 = [('-Zunpretty=stable-mir' if c == '-Zunpretty=mir' else c) for c in cmd]
+        p2 = subprocess.run(cmd2, cwd=REPO, env=dict(ENV, CARGO_TARGET_DIR=tdir), capture_output=True, text=True)
+        if p2.returncode != 0 or 'fn ' not in p2.stdout:
+            sys.stderr.write(p2.stderr[-3000:])
+            raise RuntimeError('stable-MIR dump failed for features %s' % (features,))
+    import re
+    closures = {}
+    for m in re.finditer(r'^\s+_\d+ = \{closure@([^}]*)\}\((.*)\);$', p2.stdout, re.M):
+        closures[m.group(1)] = m.group(2)
+    return (p.stdout, closures), time.time() - t
 
 
 def build_native(features=DEFAULT_FEATURES, release=False):
